@@ -152,8 +152,17 @@ class Check:
                 else:
                     m = re.search(r'File "[^"]*", line (\d+)', err)
                     bad = theorem_at_line(os.path.join(COQ, "Props", props_file), int(m.group(1))) if m else None
+                    seen_bad = False
                     for t in thms:
-                        self.obligations.append((t, False if (bad is None or t == bad) else None, err.strip()[-600:] if t == bad or bad is None else "not reached"))
+                        if bad is None:
+                            self.obligations.append((t, False, err.strip()[-600:]))
+                        elif t == bad:
+                            seen_bad = True
+                            self.obligations.append((t, False, err.strip()[-600:]))
+                        elif not seen_bad:
+                            self.obligations.append((t, True, ""))
+                        else:
+                            self.obligations.append((t, None, "not reached"))
             else:
                 for t in thms:
                     self.obligations.append((t, False, "tie file did not compile"))
